@@ -225,13 +225,18 @@ def corpus():
         C('span b - 6c/-/- 6e 0 5 7 - - ; attr 6b I:' + '.'.join(str(i - 500) for i in range(1000)) + ' ; attr 6c S:' + '.'.join(['6162', '-'] * 200)
           + ' ; attr 6d Y:' + '00ff' * 700 + ' ; end 9', 'large-arrays'),
         C('span sb - 6c/-/- 6e 0 5 7 - - ; @0 attr 6b i:1 ; @1 attr 6b i:2 ; @2 ev 65 ; @3 end 9 ; @0 attr 6b i:3 ; @1 end 10', 'threads'),
+        C('span sbs - 6c/-/- 6e 0 5 7 - - ; ev 3100 ; par ; @0 attr 30 i:1 ; @1 attr 31 s:6162 ; @0 ev 3061 ; @1 evta 3161 5 6b=i:1 ; @0 attr 30 i:3 ; @1 ev 3162 ; '
+          '@3 attr 33 S:61.62 ; seq ; ev 3000 ; end 9 ; par ; @0 attr 30 i:4 ; @2 ev 32', 'concurrent-section'),
     ]
     for bad in ('span', 'span x', 'span sx 00 -/-/- 6e 0 0 0 - -', 'span s 00 -/-/- 6e 5 0 0 - -', 'span s 00 -/- 6e 0 0 0 - -',
                 'span s 0 -/-/- 6e 0 0 0 - -', 'span s 00 -/-/- 6e 0 0 0 6b=i:2147483648 -', 'span s 00 -/-/- 6e 0 0 0 - - ; attr 6b u:-1',
                 'span s 00 -/-/- 6e 0 0 0 - - ; status 3 -', 'span s 00 -/-/- 6e 0 0 0 - - ; bogus', 'span s 00 -/-/- 6e 0 0 0 - - ; ',
                 'span s 00 -/-/- 6e 0 0 0 - - ; @4 ev 61', 'span s 00 -/-/- 6e 0 0 0 - 00/00/00/-', 'span s 00 -/-/- 6e 0 0 0 - - ; attr 6b d:00',
                 'span s 00 -/-/- 6e 0 9223372036854775808 0 - -', 'span sssssssss 00 -/-/- 6e 0 0 0 - -', 'span s 00 -/-/- 6e 0 0 0 - - ; attr 6b B:2',
-                'span s 00 -/-/- 6e 0 0 0 - - ; attr 6b x:1', 'span s 00 -/-/- 6e 0 0 0 6b - ; end 0', 'span s 00 -/-/- 6e 0 0 0 - - ; end'):
+                'span s 00 -/-/- 6e 0 0 0 - - ; attr 6b x:1', 'span s 00 -/-/- 6e 0 0 0 6b - ; end 0', 'span s 00 -/-/- 6e 0 0 0 - - ; end',
+                'span s 00 -/-/- 6e 0 0 0 - - ; par ; par', 'span s 00 -/-/- 6e 0 0 0 - - ; seq', 'span s 00 -/-/- 6e 0 0 0 - - ; par ; attr 30 i:1',
+                'span s 00 -/-/- 6e 0 0 0 - - ; par ; @1 attr 30 i:1', 'span s 00 -/-/- 6e 0 0 0 - - ; par ; @1 end 5', 'span s 00 -/-/- 6e 0 0 0 - - ; @1 par',
+                'span s 00 -/-/- 6e 0 0 0 - - ; par ; @1 ev -'):
         out.append(C(bad, 'malformed'))
     return out
 
